@@ -94,6 +94,12 @@ def _SC():
     return xgi.SimplicialComplex([[0, 1, 2], [2, 3], [3, 4, 5], [5, 0], [6, 7]])
 
 
+def _Hdis(extra=0):
+    # a hypergraph with a small second component ({2, 7}); `extra` further two-node components
+    edges = [[1, 3, 6], [3, 4, 8, 10], [4, 11], [6, 9], [4, 10], [2, 7], [3, 8], [5, 6, 10], [0, 9]]
+    return xgi.Hypergraph(edges + [[20 + 2 * q, 21 + 2 * q] for q in range(extra)])
+
+
 def _H3():
     H = xgi.random_hypergraph(12, [0.25, 0.05], seed=11)
     H.cleanup()
@@ -182,6 +188,9 @@ RECIPES = {
     # many clusters on a small, poorly separable hypergraph (clusters run empty during k-means)
     "spectral_clustering#k5": lambda s: xgi.spectral_clustering(_H3(), 5, seed=s),
     "spectral_clustering#k4": lambda s: xgi.spectral_clustering(_H3(), 4, seed=s),
+    # disconnected hypergraphs: a degenerate spectrum, the eigensolver restarts from new random vectors
+    "spectral_clustering#disconnected": lambda s: xgi.spectral_clustering(_Hdis(), 2, seed=s),
+    "spectral_clustering#disconnected3": lambda s: xgi.spectral_clustering(_Hdis(1), 3, seed=s),
     # small dense ring: rewired edges often land on existing ones
     "watts_strogatz_hypergraph#dense": lambda s: xgi.watts_strogatz_hypergraph(6, 2, 4, 0, 0.9, seed=s),
     # degree sum not a multiple of m: the repair branch
